@@ -42,6 +42,7 @@ def hostile_line(rng, uid, k):
 
 class Prop(BaseProp):
     ID = "C01"
+    PIPELINES = True      # a fixed share of the cases goes through cminx.main (-o and stdout) instead of the Documenter
     ANCHORS = ['cminx.aggregator:DocumentationAggregator.clean_doc_lines', 'cminx.aggregator:DocumentationAggregator.enterDocumented_command', 'cminx.aggregator:DocumentationAggregator.enterDocumented_module', 'cminx.rstwriter:Paragraph.build_text_string', 'cminx.documenter:Documenter.__init__']
     LEVEL = "exploration"
     RULE = ("modules whose doccomments (canonical form, 0-40 lines drawn from 10 hostile line classes incl. non-ASCII, "
